@@ -16,6 +16,7 @@ def run(ctx):
     ctx.run(U.flw17_segment_id_units)
     ctx.run(D.flw19_log_size_accounted)
     ctx.run(L.cnd2_every_wakeup_condition_notifies)
+    ctx.run(R.cnd3_block_condition_implies_flush_condition)
     return ctx.finish(
         'Static analysis of compiler MIR: the flush resets the accounted log size to 0 and '
         'notifies under the ingestion lock; every file of a merged-away partition and the frozen '
